@@ -446,6 +446,18 @@ func genEncW(emit func(string), tier string, rng *Rng) {
 		if rng.Intn(3) == 0 {
 			nfiles = 1 + rng.Intn(3)
 		}
+		// a quarter of the operations carry a developer-data scenario (wire_dev.go): field descriptions with valid / invalid /
+		// odd base type ids, redefinitions, descriptions after their use or in an earlier sequence only, developer fields of odd sizes
+		var dev *devwPlan
+		if rng.Intn(4) == 0 {
+			dev = newDevwPlan(rng)
+			if rng.Intn(8) != 0 {
+				pvOpt = []int{0x20, 0x20, 0x21}[rng.Intn(3)] // developer fields need protocol 2.0
+			}
+			if rng.Intn(3) != 0 && nfiles == 1 && dev.kind == "earlier-file" {
+				nfiles = 2 + rng.Intn(2)
+			}
+		}
 		toks := []string{"encw", fmt.Sprintf("a=%d", arch), fmt.Sprintf("h=%d", hopt), fmt.Sprintf("l=%d", lmt),
 			fmt.Sprintf("pv=%d", pvOpt), "w=" + wk, fmt.Sprintf("bs=%d", bs)}
 		// shapes reused within the op to exercise the LRU
@@ -514,6 +526,15 @@ func genEncW(emit func(string), tier string, rng *Rng) {
 					m.fields = addTsFields(rng, arch, &ts, wild, m.fields)
 				}
 				file.msgs = append(file.msgs, m)
+			}
+			if dev != nil {
+				front, back := dev.messages(rng, arch, f, nfiles)
+				if dev.kind != "after-use" && rng.Intn(3) == 0 && len(file.msgs) > 0 { // ordinary messages first
+					k := rng.Intn(len(file.msgs) + 1)
+					file.msgs = append(append(append(append([]wMsg{}, file.msgs[:k]...), front...), file.msgs[k:]...), back...)
+				} else {
+					file.msgs = append(append(front, file.msgs...), back...)
+				}
 			}
 			toks = append(toks, file.tokens()...)
 			count(fmt.Sprintf("msgs<%d", bucket(nm)))
